@@ -89,6 +89,15 @@ C_FUNCS = [
     ("src/core/array.c", "core", "cfun_array_peek"),
     ("src/core/array.c", "core", "cfun_array_push"),
     ("src/core/buffer.c", "core", "cfun_buffer_slice"),
+    ("src/core/pp.c", "fn", "scanformat"),
+    ("src/core/pp.c", "fn", "get_fmt_mapping"),
+]
+
+# object-like macros whose value a mirror depends on (Lib/FormatC.lean): rendered as `define_<NAME>`
+C_DEFINES = [
+    ("src/core/pp.c", "FMT_FLAGS"),
+    ("src/core/pp.c", "FMT_REPLACE_INTTYPES"),
+    ("src/core/pp.c", "MAX_FORMAT"),
 ]
 
 # boot.janet definitions (defn / defn- / defmacro / defmacro-)
@@ -437,6 +446,13 @@ def extract(tree):
         if not text:
             raise ExtractError("C17: cannot locate %s in %s" % (name, rel))
         out.append((name, "%s %s" % (rel, name), c_alpha(_ws(text))))
+    for rel, name in C_DEFINES:
+        if rel not in cache:
+            cache[rel] = strip_comments(read(tree, rel))
+        m = re.search(r"^[ \t]*#[ \t]*define[ \t]+%s[ \t]+(.+?)[ \t]*$" % re.escape(name), cache[rel], re.M)
+        if not m:
+            raise ExtractError("C17: #define %s not found in %s" % (name, rel))
+        out.append(("define_" + name, "%s #define %s" % (rel, name), _ws(m.group(1))))
     boot = read(tree, "src/boot/boot.janet")
     for name in JANET_DEFS:
         out.append(("boot_" + lean_ident(name), "boot.janet %s" % name, janet_alpha(janet_def(boot, name))))
@@ -472,7 +488,7 @@ def render_tie(tree):
 
 
 def tie_theorems():
-    return ["JanetModel.Lib.SrcTie." + n for _, _, n in C_FUNCS] + \
+    return ["JanetModel.Lib.SrcTie." + n for _, _, n in C_FUNCS] + ["JanetModel.Lib.SrcTie.define_" + n for _, n in C_DEFINES] + \
            ["JanetModel.Lib.SrcTie.boot_" + lean_ident(n) for n in JANET_DEFS]
 
 
